@@ -10,16 +10,16 @@ TECH = {
  "C04": "call-graph scan for nondeterministic APIs; field-based value flow of the job count; explicit and implicit (branch/loop-carried phi) flow of the job count into wire fields; edge-dominance of shared-stream calls; ownership classification of task fields; origin analysis of the bit count copied to the shared stream (private Written() through min/remainder only)",
  "C05": "edge-dominance of shared reads; ownership classification; buffer write-back/publish analysis; typestate of error returns",
  "C06": "CFG loop / callee analysis of the bitstream refill (count test, exits, error examined on every cycle); dominance of io.EOF returns; forward staleness dataflow of counter-derived buffer indices across the batch call",
- "C07": "SSA edge-dominance and all-paths analyses of the task functions, their deferred handlers and processBlock; entry-guard (recover) check of the task goroutines; slice-origin analysis of the result slots handed to tasks vs the slice scanned after Wait",
- "C08": "protected-frame reachability of declared panics; error-value escape analysis; dominance ordering of close/flush/closed-flag; every-path use analysis of error values (stream layer, shared bitstream, command-line tool); path check that a recover() in the bitstream package is followed by a re-raise or an error return; slice-origin analysis of task result slots",
+ "C07": "SSA edge-dominance and all-paths analyses of the task functions, their deferred handlers and processBlock; entry-guard (recover) check of the task goroutines; slice-origin analysis of the result slots handed to tasks vs the slice scanned after Wait; reachability of the id-base counter read from the go statements without passing Wait",
+ "C08": "protected-frame reachability of declared panics; error-value escape analysis; dominance ordering of close/flush/closed-flag; every-path use analysis of error values (stream layer, shared bitstream, command-line tool); path check that a recover() in the bitstream package is followed by a re-raise or an error return; slice-origin analysis of task result slots; every-path error use at all callers of the batch functions",
  "C09": "classification of clean exits by edge cutting (reachability); error-value escape; dominance ordering in Close; path-pruned reachability of the batch function's success returns without a completed batch; every-path use analysis of error values incl. the command-line decode loop; recover()-then-return path check over the bitstream package",
  "C10": "frozen wire-constant table of format 6 compared with type-checked constant values, call-site constants and literal-table digests; classification of library sort calls in codec code (stable / natural order / unstable with single-key order function); kernel census restricted to feasible blocks (branches decided by a dominating test of the same SSA value are pruned)",
  "C11": "dominance ordering of the range tests in decode; normalised comparison operators with bounds followed through task fields (no narrowing conversion); loop-exit condition of the batch loop; success returns of the batch function only behind a completed batch; slice-origin freshness of compacted slots; key-set / wholesale-copy analysis of the per-file task contexts of the tool",
  "C12": "switch-table extraction and pairing of encoder/decoder factory cases; frozen wire constants of the entropy package; finite decision-table comparison of the payload-present condition of encoder and decoder of the static-model codecs (guided CFG walk per (symbols, order) cell); agreement of the receiver-derived state carried around the chunk loop; classification of library sort calls in codec code; set comparison of the pure length-derived chunk expressions of encoder and decoder",
  "C13": "alias (may-refer-to) flow from every Forward src parameter to write sinks; phi analysis of the sequence's error edge; interval argument for index packing int32(i<<k): unit-step loop limit bounded by dominating constant guards at the call sites",
- "C14": "entry-test and closed-state store checks on the bitstream implementations; affine-equality abstract interpretation (Karr domain, generator form) of the counter fields over the bitstream methods with inlined helpers, specs for the exported operations and error-outcome partitioning; path exploration from each operation entry to the first closed-state test with the counter fields as forbidden stores",
+ "C14": "entry-test and closed-state store checks on the bitstream implementations; affine-equality abstract interpretation (Karr domain, generator form) of the counter fields over the bitstream methods with inlined helpers, specs for the exported operations and error-outcome partitioning; path exploration from each operation entry to the first closed-state test with the counter fields as forbidden stores; dominating divisibility test / rounding of the buffer size in the constructors",
  "C15": "switch-table extraction (bijection, upper-casing, constructors); taint from context codec names to case-sensitive comparisons; frozen set of name tests; producer/consumer agreement of the context keys codec variants are selected from; comparison of the string normalisers applied by the name lookups and by each variant selector; reverse-scan table extraction",
- "C17": "entry-block typestate checks on Write/Read/Close; dominance ordering in Close (also through a tail helper); affine-equality abstract interpretation of the bit counters (conserved by flush/refill/Close on every return, restored when Close fails)",
+ "C17": "entry-block typestate checks on Write/Read/Close; dominance ordering in Close (also through a tail helper); affine-equality abstract interpretation of the bit counters (conserved by flush/refill/Close on every return, restored when Close fails); cycle analysis of sink writes vs counter stores; dominance of definite-error returns by comparisons with the recorded size",
  "C18": "alias flow from every package-level variable to write sinks outside init; ownership classification; hasher purity; worker write-set analysis",
  "C19": "dominance analysis of open flags vs overwrite edge; who-may-call allow-list of file-system mutations; remove-after-close dominance; every-path use analysis of the errors of the stream and file calls of the tool; slice-origin and write-through analysis of the fields of queued per-file tasks; key-set / wholesale-copy analysis of the per-file task contexts",
 }
